@@ -510,6 +510,11 @@ func objectClone(in *object, out *object, clone *cloner) *object {
 		}
 	case argumentsObject:
 		out.value = value.clone(clone)
+	case *goSliceObject:
+		// The wrapper holds the slice header, which setLength replaces: every
+		// runtime needs its own (the elements stay common, as for any Go slice
+		// passed by value).
+		out.value = &goSliceObject{value: value.value}
 	case ottoError:
 		if len(value.trace) > 0 {
 			trace := make([]frame, len(value.trace))
